@@ -120,6 +120,18 @@ def entries : List Entry := [
           | some bs => okHex bs
           | none => "*") ++ (if key.isEmpty then "" else " #" ++ key))
       | _ => none },
+  -- C05, header: the 32 bytes MS-CIFS 2.2.3.1 prescribes (Protocol 0-3, Command 4, Status 5-8, Flags 9, Flags2 10-11,
+  -- PIDHigh 12-13, SecurityFeatures 14-21, Reserved 22-23, TID 24-25, PIDLow 26-27, UID 28-29, MID 30-31; little-endian)
+  { kind := "S", op := "smb.hdr", run := fun
+      | [proto, cmd, status, flags, flags2, pidHigh, sec, reserved, tid, pidLow, uid, mid] => do
+        let p ← fromHex proto
+        let sf ← fromHex sec
+        if p.length != 4 || sf.length != 8 then none else
+        let n (s : String) : Option Nat := s.toNat?
+        pure (okHex (p ++ natLe 1 (← n cmd) ++ natLe 4 (← n status) ++ natLe 1 (← n flags) ++ natLe 2 (← n flags2) ++
+          natLe 2 (← n pidHigh) ++ sf ++ natLe 2 (← n reserved) ++ natLe 2 (← n tid) ++ natLe 2 (← n pidLow) ++
+          natLe 2 (← n uid) ++ natLe 2 (← n mid)))
+      | _ => none },
   -- C07 specification: any bytes whatsoever give a value or an error
   { kind := "S", op := "smb.dec", run := fun
       | [_, _, _] => some "*"
